@@ -132,7 +132,8 @@ fn big_len(kind_overhead: u32) -> impl Strategy<Value = u32> {
 		4 => (0u32..3).prop_map(move |d| 32760 + d - o - 1),
 		3 => (1u32..9, 0u32..3, any::<bool>()).prop_map(|(m, d, a)| (if a { 4086 } else { 4094 }) * m + d - 1),
 		2 => 65535u32..65538,
-		1 => Just((1u32 << 20) + 3),
+		// "up to several MiB": mostly 1 MiB, one in five 2-5 MiB (512-1300 parts)
+		1 => prop_oneof![4 => Just((1u32 << 20) + 3), 1 => (2u32..6, 0u32..3).prop_map(|(m, d)| (m << 20) + d - 1)],
 		3 => 2u32..3000,
 	]
 }
@@ -183,6 +184,11 @@ pub fn run_chain(sc: &Scenario, dir: &Path) -> CaseResult {
 	for op in &sc.ops {
 		if let Op::Commit(items) = op {
 			for i in items {
+				if let Change::Set(_, v) = &i.ch {
+					if v.len >= 2 << 20 {
+						out.label("value-2-to-5-MiB");
+					}
+				}
 				if let (Change::Set(k, v), ColModel::Map(m)) = (&i.ch, &it.model.cols[0]) {
 					if let Some(old) = m.get(k) {
 						let (a, b) = (tier_class(old.len(), ov), tier_class(v.len as usize, ov));
